@@ -30,92 +30,6 @@ pub fn corpus_chunks() -> Vec<String> {
 }
 
 
-/// generator of integer-only programs over the modelled spine (execution order, then reversed)
-pub struct PGen {
-    pub fns: Vec<String>,
-}
-
-const MONADIC: [&str; 5] = ["¯", "¬", "⌵", "±", "∘"];
-const DYADIC: [&str; 11] = ["+", "-", "×", "=", "<", ">", "≠", "≤", "≥", "↥", "↧"];
-
-impl PGen {
-    /// a function body as source text (right-to-left), roughly `len` items
-    pub fn body(&mut self, r: &mut Rng, depth: usize, len: usize) -> String {
-        let mut items: Vec<String> = Vec::new(); // in execution order
-        for _ in 0..len {
-            let k = r.below(100);
-            let it = if k < 22 {
-                format!("{}", r.range(0, 4))
-            } else if k < 34 {
-                r.pick(&MONADIC).to_string()
-            } else if k < 52 {
-                r.pick(&DYADIC).to_string()
-            } else if k < 58 {
-                r.pick(&[".", ":", "◌"]).to_string()
-            } else if k < 62 {
-                // assertion: fails unless the value under the message is 1
-                "⍤\"x\"".to_string()
-            } else if k < 66 && !self.fns.is_empty() {
-                let i = r.below(self.fns.len());
-                format!("F{}", (b'a' + i as u8) as char)
-            } else if depth == 0 {
-                format!("{}", r.range(0, 3))
-            } else if k < 90 {
-                let m = *r.pick(&["⊙", "⋅", "⟜", "⊸", "⤙", "⤚", "◡", "∩", "⍩"]);
-                let l = 1 + r.below(3);
-                format!("{m}({})", self.body(r, depth - 1, l))
-            } else if k < 96 {
-                let m = *r.pick(&["⊃", "⊓", "⍣"]);
-                let (l1, l2) = (1 + r.below(3), 1 + r.below(3));
-                format!("{m}({})({})", self.body(r, depth - 1, l1), self.body(r, depth - 1, l2))
-            } else {
-                let (l1, l2) = (1 + r.below(3), 1 + r.below(3));
-                format!("⨬({}|{})", self.body(r, depth - 1, l1), self.body(r, depth - 1, l2))
-            };
-            items.push(it);
-        }
-        items.reverse();
-        items.join(" ")
-    }
-    pub fn program(&mut self, r: &mut Rng) -> String {
-        self.fns.clear();
-        let mut src = String::new();
-        let nf = r.below(3);
-        for i in 0..nf {
-            let l = 1 + r.below(4);
-            let b = self.body(r, 2, l);
-            src.push_str(&format!("F{} ← {}\n", (b'a' + i as u8) as char, b));
-            self.fns.push(b);
-        }
-        let l = 2 + r.below(6);
-        let main = self.body(r, 3, l);
-        let lits: Vec<String> = (0..6).map(|_| format!("{}", r.range(0, 3))).collect();
-        src.push_str(&format!("{} {}\n", main, lits.join(" ")));
-        src
-    }
-}
-
-fn ints_of(vs: &[uiua::Value]) -> Option<Vec<i64>> {
-    let mut out = Vec::new();
-    for v in vs {
-        if v.rank() != 0 {
-            return None;
-        }
-        match v {
-            uiua::Value::Num(a) => {
-                let x = *a.elements().next()?;
-                if x.fract() != 0.0 || x.abs() > 1e15 {
-                    return None;
-                }
-                out.push(x as i64)
-            }
-            uiua::Value::Byte(a) => out.push(*a.elements().next()? as i64),
-            _ => return None,
-        }
-    }
-    Some(out)
-}
-
 fn collect(n: &Node, acc: &mut Vec<(Node, Option<uiua::Signature>)>) {
     fn ops(args: &[SigNode], acc: &mut Vec<(Node, Option<uiua::Signature>)>) {
         for sn in args {
@@ -175,6 +89,14 @@ fn main() {
                 }
                 let Ok(asm) = compile(&src, uiua::PreEvalMode::Lazy) else { continue };
                 compiled += 1;
+                {
+                    let mut ex = Export::new();
+                    let root = ex.node(&asm.root);
+                    let funs: Vec<String> = asm.functions.iter().map(|f| ex.node(f)).collect();
+                    if root.len() + funs.iter().map(|f| f.len()).sum::<usize>() < 20000 {
+                        println!("{{\"prog\":true,\"root\":{},\"funs\":{}}}", jstr(&root), jstr(&format!("[{}]", funs.join(";"))));
+                    }
+                }
                 let mut acc: Vec<(Node, Option<uiua::Signature>)> = vec![(asm.root.clone(), None)];
                 collect(&asm.root, &mut acc);
                 for f in asm.functions.iter() {
@@ -245,6 +167,87 @@ fn main() {
                 );
                 emitted += 1;
             }
+        }
+        "frame" => {
+            // search: the frame law itself on the implementation, with sentinels beneath
+            let mut g = PGen { fns: vec![] };
+            let sentinels: Vec<uiua::Value> = (0..3).map(|i| boxes(&[], vec![uiua::Value::from(format!("sentinel-{i}"))])).collect();
+            let mut done = 0;
+            let mut tries = 0;
+            let mut ok_runs = 0;
+            let mut err_runs = 0;
+            while done < n && tries < n * 30 {
+                tries += 1;
+                g.fns.clear();
+                let mut src = String::from("# Experimental!\n");
+                let nf = r.below(3);
+                for i in 0..nf {
+                    let l = 1 + r.below(4);
+                    let b = g.body(&mut r, 2, l);
+                    src.push_str(&format!("F{} ← {}\n", (b'a' + i as u8) as char, b));
+                    g.fns.push(b);
+                }
+                let l = 1 + r.below(6);
+                let body = g.body(&mut r, 3, l);
+                src.push_str(&format!("Main ← {}\n", body));
+                let Ok(asm) = compile(&src, uiua::PreEvalMode::Lazy) else { continue };
+                // find Main's signature
+                let Some(mainf) = asm.exports.get("Main").and_then(|i| asm.bindings.get(*i)).and_then(|b| match &b.kind {
+                    uiua::BindingKind::Func(f) => Some(f.clone()),
+                    _ => None,
+                }) else { continue };
+                let (a, o) = (mainf.sig.args(), mainf.sig.outputs());
+                done += 1;
+                for extra in [0usize, 2] {
+                    let mut env = uiua::Uiua::with_safe_sys().with_execution_limit(std::time::Duration::from_secs(2));
+                    for sv in &sentinels {
+                        env.push(sv.clone());
+                    }
+                    let args: Vec<i64> = (0..a + extra).map(|_| r.range(0, 3)).collect();
+                    for x in &args {
+                        env.push(*x as f64);
+                    }
+                    let base = sentinels.len() + extra;
+                    let res = catch(|| {
+                        env.run_asm(asm.clone()).and_then(|_| env.call(&mainf)).map_err(|e| e.to_string())
+                    });
+                    match res {
+                        Ok(Ok(())) => {
+                            ok_runs += 1;
+                            let d = uiua::verif::depths(&env);
+                            let st = env.take_stack();
+                            let mut bad = Vec::new();
+                            if st.len() != base + o {
+                                bad.push(format!("height {} expected {}", st.len(), base + o));
+                            }
+                            for (i, sv) in sentinels.iter().enumerate() {
+                                if st.get(i) != Some(sv) {
+                                    bad.push(format!("sentinel {i} damaged"));
+                                }
+                            }
+                            for i in 0..extra {
+                                if st.get(sentinels.len() + i).map(|v| format!("{v:?}")) != Some(format!("{:?}", uiua::Value::from(args[i] as f64))) {
+                                    bad.push(format!("extra value {i} beneath the arguments damaged"));
+                                }
+                            }
+                            if d[1] != 0 || d[2] != 1 || d[5] != 0 || d[7] != 0 {
+                                bad.push(format!("hidden residue {d:?}"));
+                            }
+                            if !bad.is_empty() {
+                                println!("{{\"violation\":\"frame\",\"src\":{},\"sig\":\"|{a}.{o}\",\"args\":{:?},\"what\":{}}}", jstr(&src), args, jstr(&bad.join("; ")));
+                            }
+                        }
+                        Ok(Err(e)) => {
+                            err_runs += 1;
+                            if e.contains("modified the argument list") || e.contains("bug in the interpreter") || e.contains("crashed") {
+                                println!("{{\"violation\":\"frame-runtime-check\",\"src\":{},\"sig\":\"|{a}.{o}\",\"args\":{:?},\"what\":{}}}", jstr(&src), args, jstr(&e));
+                            }
+                        }
+                        Err(p) => println!("{{\"violation\":\"panic\",\"src\":{},\"sig\":\"|{a}.{o}\",\"args\":{:?},\"what\":{}}}", jstr(&src), args, jstr(&p)),
+                    }
+                }
+            }
+            println!("{{\"summary\":true,\"functions\":{done},\"ok_runs\":{ok_runs},\"err_runs\":{err_runs}}}");
         }
         _ => eprintln!("usage: c02 export|exec|frame N"),
     }
